@@ -96,6 +96,10 @@ def gen_cases(ctx, n):
         elif t == 9:
             ww = rng.choice([0, 0, 1, 15, 16, 17, 255, 256, 1000])
             hh = rng.choice([0, 1, 16, 17, 255, 300])
+            if rng.below(2):
+                # the ends of the 16-bit size fields, with the other side small enough for the picture to fit in memory
+                ww, hh = rng.choice([(65535, 16), (16, 65535), (65535, 1), (1, 65535), (65535, 255), (255, 65535), (65534, 17), (17, 65534),
+                                     (4096, 4096), (4097, 4095), (32768, 512), (512, 32768), (65535, 0), (0, 65535), (32767, 3), (3, 32769)])
             code = 0 if (ww < 256 and hh < 256 and rng.below(2)) else 1
             ops.append(D(sorenson_with_size(rng, ww, hh, code, rng.choice(["I", "P"]))))
             kind.append("sorenson-size-%dx%d" % (ww, hh))
